@@ -26,6 +26,9 @@ fn install_panic_hook() {
             "<non-string panic>".into()
         };
         let file = info.location().map(|l| l.file().rsplit('/').next().unwrap_or("").to_string()).unwrap_or_default();
+        if ["unsafe precondition", "misaligned pointer dereference", "null pointer dereference"].iter().any(|w| msg.contains(w)) {
+            eprintln!("NON-UNWINDING PANIC: {msg} @ {file}");
+        }
         LAST_PANIC.with(|p| *p.borrow_mut() = Some(format!("{msg} @ {file}")));
     }));
 }
